@@ -69,6 +69,11 @@ func c12GenCNF(r *Rng) (*cnf.CNF, error) {
 }
 
 func c12GenHierarchical(r *Rng) (*hierarchical.HierarchicalConjunctiveThreshold, error) {
+	return c12GenHierarchicalOpt(r, false)
+}
+
+// with allowEmpty some levels (never the first) have no parties: the public constructor admits them
+func c12GenHierarchicalOpt(r *Rng, allowEmpty bool) (*hierarchical.HierarchicalConjunctiveThreshold, error) {
 	for {
 		nl := 2 + r.IntN(2)
 		id := sharing.ID(1)
@@ -76,12 +81,15 @@ func c12GenHierarchical(r *Rng) (*hierarchical.HierarchicalConjunctiveThreshold,
 		cum := 0
 		for i := range levels {
 			cnt := 1 + r.IntN(3)
+			if allowEmpty && i > 0 && r.IntN(8) == 0 {
+				cnt = 0 // a level without parties: the constructor admits it
+			}
 			ids := make([]sharing.ID, cnt)
 			for j := range ids {
 				ids[j] = id
 				id++
 			}
-			cum += 1 + r.IntN(cnt)
+			cum += 1 + r.IntN(max(cnt, 1))
 			levels[i] = hierarchical.WithLevel(cum, ids...)
 		}
 		h, err := hierarchical.NewHierarchicalConjunctiveThresholdAccessStructure(levels...)
@@ -511,9 +519,13 @@ func (a *c12Alt) next() bool { a.n++; return a.n%2 == 1 }
 
 func c12RegisterSharing[E algebra.PrimeGroupElement[E, S], S algebra.PrimeFieldElement[S]](cn string, g algebra.PrimeGroup[E, S], f algebra.PrimeField[S]) {
 	fam := c12NewFamily(cn, g, f)
+	heavy := 2
+	if cn != "k256" {
+		heavy = 5 // BLS12-381 arithmetic in pure Go is an order of magnitude slower
+	}
 	c12Register(c12Case[*mpc.BaseShard[E, S]]{
 		name:   "mpc.BaseShard/" + cn,
-		weight: 2,
+		weight: heavy,
 		fam:    fam,
 		gen: func() func(r *Rng) (*mpc.BaseShard[E, S], error) {
 			alt := &c12Alt{}
@@ -524,7 +536,7 @@ func c12RegisterSharing[E algebra.PrimeGroupElement[E, S], S algebra.PrimeFieldE
 	})
 	c12Register(c12Case[*mpc.BasePublicMaterial[E, S]]{
 		name:   "mpc.BasePublicMaterial/" + cn,
-		weight: 2,
+		weight: heavy,
 		fam:    fam,
 		gen: func() func(r *Rng) (*mpc.BasePublicMaterial[E, S], error) {
 			alt := &c12Alt{}
@@ -814,7 +826,7 @@ func init() {
 	})
 	c12Register(c12Case[*hierarchical.HierarchicalConjunctiveThreshold]{
 		name:  "hierarchical.HierarchicalConjunctiveThreshold",
-		gen:   c12GenHierarchical,
+		gen:   func(r *Rng) (*hierarchical.HierarchicalConjunctiveThreshold, error) { return c12GenHierarchicalOpt(r, true) },
 		equal: c12EqHierarchical,
 		valid: func(v *hierarchical.HierarchicalConjunctiveThreshold) error {
 			w, err := hierarchical.NewHierarchicalConjunctiveThresholdAccessStructure(v.Levels()...)
